@@ -342,8 +342,19 @@ def inst_accepts_rejects(rng):
     return D, submit, dfa_mutants(D, rng, 4)
 
 
+LAYERED = [   # non-degenerate, nullable variables found in different rounds of the fix-point
+    [("S", "ABC"), ("A", "BC"), ("A", "a"), ("B", ""), ("B", "b"), ("C", "BB"), ("C", "c")],
+    [("S", "aAb"), ("A", "BC"), ("B", "CC"), ("B", "b"), ("C", ""), ("C", "c")],
+    [("S", "AB"), ("S", "a"), ("A", "B"), ("A", "a"), ("B", "CC"), ("C", ""), ("C", "b")],
+    [("S", "ASA"), ("S", "aB"), ("A", "B"), ("A", "S"), ("B", "b"), ("B", "")],
+    [("S", "AC"), ("C", "AA"), ("A", ""), ("A", "a"), ("S", "b")],
+]
+
+
 def simple_grammar(rng, cnf=False, nondeg=True):
     import gambatools.cfg_algorithms as ca
+    if not cnf and rng.random() < 0.15:
+        return U.make_cfg(rng.choice(LAYERED))
     for _ in range(200):
         G = cfgsrc.build(cfgsrc.random_src(rng, cnf=cnf))
         if not (ca.cfg_is_simple(G) and {r.variable for r in G.R} == set(G.V) and G.R[0].variable == G.S and
